@@ -82,6 +82,8 @@ fn main() {
         "e1" => e1::cmd_e1(&args),
         #[cfg(feature = "e1")]
         "e1-trace" => e1::cmd_trace(&args),
+        #[cfg(feature = "e1")]
+        "refproc" => c09::cmd_refproc(),
         "e3" => e3::cmd_e3(&args),
         "c20" => c20::cmd_c20(&args),
         "replay" => cmd_replay(&args),
